@@ -305,6 +305,84 @@ def run(prog: Program) -> Results:
                 res.add("R-C03-6", (f.key, "newline flag from a partial gap", st.targets[0].attr), f.loc(st),
                         f"{f.key}: `{norm(st)[:70]}` is computed from a gap that starts at `{a.id}`, a cursor that advances over comments: "
                         f"an end-of-line comment before the value is then followed by text on the same line and absorbs it")
+    # ---------------------------------------------------------------- R-C03-7 source order of concatenated pieces
+    from sa.callgraph import CallGraph
+    from sa.deadrender import renderer_functions
+    from sa.order import Order, misordered
+    r7 = res.rule("R-C03-7", "concatenations in the renderers list trivia in source order: X.before < X < X.after, and everything of "
+                  "a child lies between its owner's before and after (f-strings, `+`, list displays, join, apply_trailing_trivia)",
+                  floor=15)
+    rfs = renderer_functions(prog, CallGraph(prog))
+    for f in rfs:
+        o = Order(f)
+        inner = set()
+        cands = []
+        for n in walk_no_nested(f.node):
+            if isinstance(n, (ast.JoinedStr, ast.List, ast.Tuple)) or (isinstance(n, ast.BinOp) and isinstance(n.op, ast.Add)) or \
+                    (isinstance(n, ast.Call) and callee(n) in ("apply_trailing_trivia", "join")):
+                cands.append(n)
+        for n in cands:
+            for sub in ast.walk(n):
+                if sub is not n and any(sub is c for c in cands):
+                    inner.add(id(sub))
+        for n in cands:
+            if id(n) in inner:
+                continue
+            labels = o.seq(n)
+            if len(labels) < 2:
+                continue
+            r7.instances += 1
+            bad = misordered(labels)
+            r7.ob(not bad, {"site": f.key, "pieces": [f"{'.'.join(p)}.{k}" for lab in labels for p, k in ([lab] if lab[0] != "bag" else lab[1])][:6]})
+            for a, b in bad[:1]:
+                sa_, sb_ = f"{'.'.join(a[0])}.{a[1]}", f"{'.'.join(b[0])}.{b[1]}"
+                res.add("R-C03-7", (f.key, "pieces out of source order", sa_, sb_), f.loc(n),
+                        f"{f.key}: `{norm(n)[:70]}` emits {sa_} before {sb_}, but in the source {sb_} comes first: comments of the two "
+                        f"slots swap places in a round trip")
+    # ---------------------------------------------------------------- R-C03-8 every layer slot is consumed for every layer
+    r8 = res.rule("R-C03-8", "re-wrapping let layers consumes every trivia slot of every layer: in a renderer loop over scope layers, "
+                  "each of body_before/body_after/after_let_comment/attrpath_order/scope is read on every path through an iteration",
+                  floor=5)
+    LAYER_KEYS = ("scope", "body_before", "body_after", "attrpath_order", "after_let_comment")
+    for f in rfs:
+        loops = [n for n in walk_no_nested(f.node) if isinstance(n, ast.For)]
+        if not loops:
+            continue
+        cfg = None
+        for lp in loops:
+            tnames = {x.id for x in ast.walk(lp.target) if isinstance(x, ast.Name)}
+            reads = {}
+            for st in lp.body:
+                for x in ast.walk(st):
+                    key = None
+                    if isinstance(x, ast.Subscript) and isinstance(x.value, ast.Name) and x.value.id in tnames and isinstance(x.slice, ast.Constant):
+                        key = x.slice.value
+                    elif isinstance(x, ast.Call) and isinstance(x.func, ast.Attribute) and x.func.attr == "get" and isinstance(x.func.value, ast.Name) \
+                            and x.func.value.id in tnames and x.args and isinstance(x.args[0], ast.Constant):
+                        key = x.args[0].value
+                    if key in LAYER_KEYS:
+                        reads.setdefault(key, []).append(x)
+            if len(reads) < 3:
+                continue  # not a loop over scope layers
+            cfg = cfg or CFG(f.node)
+            header = cfg.node_of(lp)
+            entry = cfg.containing(lp.body[0]) if not isinstance(lp.body[0], (ast.If, ast.For, ast.While, ast.Try, ast.With)) else None
+            if entry is None:
+                # compound first statement: its test / header node
+                entry = next((n for n in cfg.nodes if n.ast is (lp.body[0].test if isinstance(lp.body[0], (ast.If, ast.While)) else lp.body[0])), None)
+            if header is None or entry is None:
+                res.unclass(f"{f.key}: layer loop at line {lp.lineno} could not be located in the control-flow graph")
+                continue
+            for key in LAYER_KEYS:
+                r8.instances += 1
+                readers = [cfg.containing(x) for x in reads.get(key, [])]
+                readers = [n for n in readers if n is not None]
+                ok = bool(readers) and (entry in readers or cfg.postdominated_by(entry, readers, exits=[header, cfg.exit]))
+                r8.ob(ok, {"site": f.key, "layer_slot": key, "reads": len(readers)})
+                if not ok:
+                    res.add("R-C03-8", (f.key, "layer slot not consumed on every path", key), f.loc(lp),
+                            f"{f.key}: the loop over let layers reads `{key}` of the layer only on some paths (or never): for the layers "
+                            f"that take the other path the comments stored there are dropped, and another layer's are shown instead")
     res.tables.append(f"sa/tables/grammar.py: {len(PRODUCTIONS)} productions, {len(GENERIC_CLASSES)} generic walkers")
     res.assumptions = ["relative order of two comments routed into different slots of the same gap is a value-level fact and is not decided"]
     return res
